@@ -1,7 +1,9 @@
 ------------------------------- MODULE GoitFS -------------------------------
 (***************************************************************************)
 (* Design-level model of Goit's WRITE PROTOCOLS (C15): every modifying     *)
-(* command is a fixed sequence of atomic file-system effects (Plan), a     *)
+(* command (init, add, rm, commit, branch, branch -d, branch -r, switch,   *)
+(* switch -c, update-ref, reset, restore, restore --staged, config)        *)
+(* is a fixed sequence of atomic file-system effects (Plan), a             *)
 (* process can be killed between any two of them (Crash), and after every  *)
 (* step, interrupted or not, the repository must be Recoverable and every  *)
 (* branch must hold its old or its new commit.                             *)
@@ -39,8 +41,9 @@ VARIABLES head,     \* branch HEAD names
           idx,      \* the blob the staging area names, or None
           made,     \* commits created so far
           run,      \* command in progress: [cmd, pc, plan, tgt] or [cmd |-> "idle"]
-          pre       \* refs and head when the command in progress started
-vars == <<head, refs, objs, idx, made, run, pre>>
+          pre,      \* refs and head when the command in progress started
+          repo      \* "none": no .goit directory yet (init builds it in .goit.tmp), "ok": .goit installed
+vars == <<head, refs, objs, idx, made, run, pre, repo>>
 
 Idle == [cmd |-> "idle"]
 
@@ -64,28 +67,34 @@ PlanRename(n) ==
 PlanSwitch(b) == TmpThen(Op("sethead", b, "")) \o <<Log>>
 PlanSwitchC(n) == TmpThen(Op("setref", n, refs[head])) \o TmpThen(Op("sethead", n, "")) \o <<Log, Log>>
 PlanUpdateRef(b, c) == TmpThen(Op("setref", b, c)) \o TmpThen(Op("sethead", b, ""))
+PlanRm == <<Op("wt", "", "")>> \o TmpThen(Op("setidx", None, ""))         \* working file removed, entry dropped
+PlanRestore == <<Op("wt", "", "")>>
+PlanRestoreStaged(c) == TmpThen(Op("setidx", "b_" \o c, ""))
+PlanConfig == TmpThen(Op("cfg", "", ""))
+PlanInit == <<Op("initdir", "", ""), Op("initdir", "", ""), Op("initdir", "", ""), Op("install", "", "")>>   \* built in .goit.tmp, renamed last
 PlanReset(c) == TmpThen(Op("setref", head, c)) \o <<Log, Log>> \o TmpThen(Op("setidx", "b_" \o c, ""))
 
 (* -------- the effect of one operation -------- *)
 Apply(op) ==
-    CASE op.k = "putobj" -> objs' = objs \cup {op.a} /\ UNCHANGED <<head, refs, idx>>
-      [] op.k = "setref" -> refs' = [refs EXCEPT ![op.a] = op.b] /\ UNCHANGED <<head, objs, idx>>
-      [] op.k = "delref" -> refs' = [refs EXCEPT ![op.a] = None] /\ UNCHANGED <<head, objs, idx>>
-      [] op.k = "renref" -> refs' = [refs EXCEPT ![op.b] = refs[op.a], ![op.a] = None] /\ UNCHANGED <<head, objs, idx>>
-      [] op.k = "sethead" -> head' = op.a /\ UNCHANGED <<refs, objs, idx>>
-      [] op.k = "setidx" -> idx' = op.a /\ UNCHANGED <<head, refs, objs>>
-      [] OTHER -> UNCHANGED <<head, refs, objs, idx>>
+    CASE op.k = "putobj" -> objs' = objs \cup {op.a} /\ UNCHANGED <<head, refs, idx, repo>>
+      [] op.k = "setref" -> refs' = [refs EXCEPT ![op.a] = op.b] /\ UNCHANGED <<head, objs, idx, repo>>
+      [] op.k = "delref" -> refs' = [refs EXCEPT ![op.a] = None] /\ UNCHANGED <<head, objs, idx, repo>>
+      [] op.k = "renref" -> refs' = [refs EXCEPT ![op.b] = refs[op.a], ![op.a] = None] /\ UNCHANGED <<head, objs, idx, repo>>
+      [] op.k = "sethead" -> head' = op.a /\ UNCHANGED <<refs, objs, idx, repo>>
+      [] op.k = "setidx" -> idx' = op.a /\ UNCHANGED <<head, refs, objs, repo>>
+      [] op.k = "install" -> repo' = "ok" /\ UNCHANGED <<head, refs, objs, idx>>
+      [] OTHER -> UNCHANGED <<head, refs, objs, idx, repo>>
 
 HasCommit(b) == refs[b] # None
 Born == HasCommit(head)
 
 (* -------- commands -------- *)
 Start(cmd, plan, isCommit) ==
-    /\ run = Idle
+    /\ run = Idle /\ repo = (IF cmd = "init" THEN "none" ELSE "ok")
     /\ run' = [cmd |-> cmd, pc |-> 1, plan |-> plan]
     /\ pre' = [refs |-> refs, head |-> head]
     /\ made' = IF isCommit THEN made + 1 ELSE made
-    /\ UNCHANGED <<head, refs, objs, idx>>
+    /\ UNCHANGED <<head, refs, objs, idx, repo>>
 
 NextBlob == "b_c" \o ToString(made + 1)
 StartAdd == Start("add", PlanAdd(NextBlob), FALSE)
@@ -99,6 +108,11 @@ StartSwitch == \E b \in Branches : HasCommit(b) /\ Start("switch", PlanSwitch(b)
 StartSwitchC == \E n \in Branches : ~HasCommit(n) /\ Born /\ Start("switchc", PlanSwitchC(n), FALSE)
 StartUpdateRef == \E b \in Branches, c \in Commits : HasCommit(b) /\ c \in objs /\ Start("updateref", PlanUpdateRef(b, c), FALSE)
 StartReset == \E c \in Commits : Born /\ c \in objs /\ Start("reset", PlanReset(c), FALSE)
+StartRm == idx # None /\ Start("rm", PlanRm, FALSE)
+StartRestore == idx # None /\ Start("restore", PlanRestore, FALSE)
+StartRestoreStaged == Born /\ Start("restores", PlanRestoreStaged(refs[head]), FALSE)
+StartConfig == Start("config", PlanConfig, FALSE)
+StartInit == Start("init", PlanInit, FALSE)
 
 Step ==
     /\ run # Idle
@@ -110,21 +124,23 @@ Step ==
 Crash ==
     /\ run # Idle
     /\ run' = Idle
-    /\ UNCHANGED <<head, refs, objs, idx, made, pre>>
+    /\ UNCHANGED <<head, refs, objs, idx, made, pre, repo>>
 
 Init ==
     /\ head = CHOOSE b \in Branches : TRUE
     /\ refs = [b \in Branches |-> None]
-    /\ objs = {} /\ idx = None /\ made = 0 /\ run = Idle
+    /\ objs = {} /\ idx = None /\ made = 0 /\ run = Idle /\ repo = "none"
     /\ pre = [refs |-> [b \in Branches |-> None], head |-> CHOOSE b \in Branches : TRUE]
 
 Next == StartAdd \/ StartCommit \/ StartBranch \/ StartDelete \/ StartRename \/ StartSwitch \/ StartSwitchC
-          \/ StartUpdateRef \/ StartReset \/ Step \/ Crash
+          \/ StartUpdateRef \/ StartReset \/ StartRm \/ StartRestore \/ StartRestoreStaged \/ StartConfig \/ StartInit
+          \/ Step \/ Crash
 Spec == Init /\ [][Next]_vars
 
 (* -------- C15 at design level -------- *)
 CommitComplete(c) == c \in objs /\ ("t_" \o c) \in objs /\ ("b_" \o c) \in objs
 Recoverable ==
+    /\ repo = "none" => (objs = {} /\ idx = None /\ \A b \in Branches : ~HasCommit(b))   \* an interrupted init leaves no repository at all
     /\ head \in Branches
     /\ \A b \in Branches : HasCommit(b) => CommitComplete(refs[b])
     /\ idx # None => idx \in objs
